@@ -228,7 +228,12 @@ fn copy_dir(src: &Path, dst: &Path) -> std::io::Result<()> {
         let from = entry.path();
         let to = dst.join(&name);
         if ft.is_dir() {
-            if name == ".locks" || name == ".tmp" {
+            if name == ".locks" {
+                continue;
+            }
+            if name == ".tmp" {
+                // krill creates this directory only when a store is opened
+                std::fs::create_dir_all(dst.join(&name))?;
                 continue;
             }
             copy_dir(&from, &to)?;
